@@ -49,7 +49,18 @@ func useSaved(saved string) []L.Stmt {
 
 func (g *Gen) tplClosureExit() []L.Stmt {
 	saved := g.fresh("sv")
-	out := []L.Stmt{local1(saved, tbl())}
+	// inside a function of its own, without parameters and with every earlier declaration outside it: the first local
+	// of the block that is left lives in register 0
+	freshFn := g.n(3, "freshfn") == 0
+	var pre, out []L.Stmt
+	declare := func(s L.Stmt) {
+		if freshFn {
+			pre = append(pre, s)
+		} else {
+			out = append(out, s)
+		}
+	}
+	declare(local1(saved, tbl()))
 	sv := name(saved)
 	capture := g.n(5, "capture")
 	exit := g.n(12, "exit")
@@ -116,11 +127,13 @@ func (g *Gen) tplClosureExit() []L.Stmt {
 		case 1:
 			// while loop with its own counter
 			g.class("closure:while_loop")
-			out = append(out, local1("li", num(0)), &L.WhileStmt{Cond: bin("<", name("li"), num(3)), Body: blk(append([]L.Stmt{assign1(name("li"), bin("+", name("li"), num(1)))}, body...)...)})
+			declare(local1("li", num(0)))
+			out = append(out, &L.WhileStmt{Cond: bin("<", name("li"), num(3)), Body: blk(append([]L.Stmt{assign1(name("li"), bin("+", name("li"), num(1)))}, body...)...)})
 		default:
 			// repeat-until: the loop goes round through a false condition that reads a body local
 			g.class("closure:repeat_loop")
-			out = append(out, local1("li", num(0)), &L.RepeatStmt{Body: blk(append([]L.Stmt{assign1(name("li"), bin("+", name("li"), num(1))), local1("done", bin(">=", name("li"), num(3)))}, body...)...), Cond: name("done")})
+			declare(local1("li", num(0)))
+			out = append(out, &L.RepeatStmt{Body: blk(append([]L.Stmt{assign1(name("li"), bin("+", name("li"), num(1))), local1("done", bin(">=", name("li"), num(3)))}, body...)...), Cond: name("done")})
 		}
 	case 2: // loop variable itself captured, loop runs to completion
 		out = append(out, &L.NumForStmt{Var: v, Start: num(1), End: num(3), Body: blk(closurePair(sv, v)...)})
@@ -191,11 +204,10 @@ func (g *Gen) tplClosureExit() []L.Stmt {
 	}
 	out = append(out, g.noise()...)
 	out = append(out, useSaved(saved)...)
-	if g.n(3, "freshfn") == 0 {
-		// inside a function of its own, without parameters: the first local is register 0
+	if freshFn {
 		g.class("closure:in_fresh_function")
 		wf := g.fresh("wf")
-		return []L.Stmt{local1(wf, fn(nil, false, blk(out...))), callStmt(call(name(wf)))}
+		return []L.Stmt{&L.DoStmt{Body: blk(append(pre, local1(wf, fn(nil, false, blk(out...))), callStmt(call(name(wf))))...)}}
 	}
 	return []L.Stmt{&L.DoStmt{Body: blk(out...)}}
 }
